@@ -10,6 +10,9 @@
 //   c                clear
 //   B <pat> <start> <count> <step>   bulk insert: 0 ascending 1 descending 2 organ-pipe 3 zig-zag 4 fibonacci-ish
 //   D <pat> <count>                  bulk remove: 0 smallest 1 largest 2 alternate 3 median 4 root (first compared)
+//   G <pat> <count>                  grow: insert <count> keys of the universe in pattern order (0 ascending 1 descending 2 organ-pipe 3 zig-zag)
+//                                    WITHOUT per-operation checks, then check content, shape and depth once (large trees)
+//   H <pat> <count>                  shrink: remove <count> keys (0 smallest 1 largest 2 alternate) without per-operation checks, then check once
 //
 // The oracle set asserted depends on VERIF_PROP (C12 | C13 | C14); failures of the other
 // properties' oracles end the case silently and are counted as foreign.
@@ -49,7 +52,7 @@ std::ostream &operator<<(std::ostream &os, const Op &o) {
   switch (o.kind) {
   case 'i': case 'r': case 'l': case 'f': os << ' ' << o.a; break;
   case 'B': os << ' ' << o.a << ' ' << o.b << ' ' << o.c << ' ' << o.d; break;
-  case 'D': os << ' ' << o.a << ' ' << o.b; break;
+  case 'D': case 'G': case 'H': os << ' ' << o.a << ' ' << o.b; break;
   default: break;
   }
   return os;
@@ -197,6 +200,7 @@ struct Runner {
   uint64_t shape_fp = 1469598103934665603ULL;
   int max_n = 0;
   long ops_done = 0;
+  bool quiet = false;   // G / H: no shape reconstruction around every single operation
 
   Runner(const Case &c, const string &p) : cs(c), prop(p) {}
 
@@ -391,7 +395,7 @@ struct Runner {
     int nch = -1, depth = -1;
     Shape before;
     bool have_shape = false;
-    if (it != model.end() && model.size() <= 400) {
+    if (it != model.end() && model.size() <= 400 && !quiet) {
       string err;
       before = reconstruct(&err);
       if (!err.empty()) { fail("C12", "shape", "shape reconstruction: " + err); return; }
@@ -523,6 +527,28 @@ struct Runner {
       case 'f': do_foreach(o.a); if (!stop()) scan(false); break;
       case 'c': do_clear(); after_mutation(); break;
       case 'B': for (int k : bulk_keys(o.a, o.b, std::min(o.c, 6000), o.d)) { if (stop()) break; do_insert(k); ops_done++; after_mutation(); } break;
+      case 'G': case 'H': {
+        int U2 = cs.universe; int cnt = std::min(o.b, U2);
+        quiet = true;
+        if (o.kind == 'G') {
+          for (int i = 0; i < cnt && !stop(); i++) {
+            long k;
+            switch (o.a % 4) { case 0: k = i; break; case 1: k = cnt - 1 - i; break; case 2: k = (i % 2 == 0) ? i / 2 : cnt - 1 - i / 2; break; default: k = (i % 2 == 0) ? cnt / 2 + i / 2 : cnt / 2 - 1 - i / 2; }
+            if (k < 0) k = 0;
+            do_insert((int)(k % U2)); ops_done++;
+          }
+        } else {
+          for (int j = 0; j < cnt && !model.empty() && !stop(); j++) {
+            int k = (o.a % 3 == 0) ? model.begin()->first : (o.a % 3 == 1) ? std::prev(model.end())->first : ((j % 2 == 0) ? model.begin()->first : std::prev(model.end())->first);
+            do_remove(k); ops_done++;
+          }
+        }
+        quiet = false;
+        if (!stop()) scan(false);
+        if (!stop() && prop == "C13" && cs.type != 0) { string err; Shape sh = reconstruct(&err); if (!err.empty()) fail("C12", "shape", "shape reconstruction: " + err); else check_balance(sh); }
+        vl::stats().klass(model.size() >= 100000 ? "big_tree_ge_100000" : model.size() >= 10000 ? "big_tree_ge_10000" : "big_tree_small");
+        break;
+      }
       case 'D': {
         int cnt = std::min(o.b, 6000);
         for (int j = 0; j < cnt && !model.empty() && !stop(); j++) {
@@ -546,7 +572,7 @@ struct Runner {
       }
       if (!g_cmp_error.empty()) fail("C14", "use-after-destroy", g_cmp_error);
     }
-    if (!stop()) scan(cs.universe <= 5000);
+    if (!stop()) scan(cs.universe <= 5000);   // (lookup of every universe key only for universes up to 5000)
     // final: free the tree; everything left must be destroyed exactly once
     std::set<std::pair<int, int>> expect;
     for (auto &kv : model) {
@@ -723,6 +749,20 @@ int run_generated() {
   if (sub == "all" || sub == "exh") {
     exhaustive_perms(prop, thorough ? 7 : 6, thorough ? 6 : 5, shard, nshards);
     if (!g_failed) exhaustive_seqs(prop, thorough ? 6 : 5, shard, nshards);
+  }
+  if (!g_failed && (sub == "big")) {
+    // large trees: retracing / fix-up paths longer than anything a small universe can produce (height > 16 needs ~100 000 ascending keys)
+    long idx = 0;
+    vector<int> sizes = thorough ? vector<int>{131079, 524295, 1048583} : vector<int>{131079};
+    for (int type = 1; type <= 2 && !g_failed; type++)
+      for (int n : sizes)
+        for (int pat = 0; pat < 4 && !g_failed; pat++) {
+          if ((idx++ % nshards) != shard) continue;
+          Case c; c.type = type; c.cmp = 0; c.ctor = 0; c.notif = 0; c.universe = n;
+          c.ops.push_back(Op{'G', pat, n}); c.ops.push_back(Op{'l', n / 3}); c.ops.push_back(Op{'H', pat % 3, n / 2}); c.ops.push_back(Op{'G', (pat + 1) % 4, n / 4}); c.ops.push_back(Op{'f', 5});
+          exec_and_record("big", c, prop, false);
+        }
+    return g_failed;
   }
   if (g_failed) return g_failed;
   if (sub == "all" || sub == "rand") {
